@@ -73,6 +73,22 @@ func c07Recipe(recipe string) []byte {
 			body = append(body, ref.HeaderN(ref.L, n, b)...)
 		}
 		return wrapMsg(body)
+	case "smallitems": // a list of a one-element items of format code b
+		w := 1
+		switch b {
+		case 0o32, 0o52:
+			w = 2
+		case 0o34, 0o54, 0o44:
+			w = 4
+		case 0o30, 0o50, 0o40:
+			w = 8
+		}
+		one := append([]byte{byte(b)<<2 | 1, byte(w)}, bytes.Repeat([]byte{0x41}, w)...)
+		if b == 0o44 || b == 0o40 {
+			one[2] = 0x3F // keep floats finite
+		}
+		body := append([]byte{0x03, byte(a >> 16), byte(a >> 8), byte(a)}, bytes.Repeat(one, a)...)
+		return wrapMsg(body)
 	case "emptylist": // list of a empty lists
 		body := append([]byte{0x03, byte(a >> 16), byte(a >> 8), byte(a)}, bytes.Repeat([]byte{0x01, 0x00}, a)...)
 		return wrapMsg(body)
@@ -159,6 +175,11 @@ func c07Jobs(c *ctx) (small []iso.Job, large []iso.Job) {
 			r := fmt.Sprintf("item %d %d", code, n)
 			large = append(large, iso.Job{Input: c07Recipe(r), Family: "long-item", Meta: r})
 		}
+	}
+	// wide lists of many small items of every format (per-item costs that grow with what follows the item)
+	for _, code := range []int{0o20, 0o10, 0o11, 0o31, 0o51, 0o32, 0o52, 0o34, 0o54, 0o30, 0o50, 0o44, 0o40} {
+		r := fmt.Sprintf("smallitems %d %d", c.pick(20000, 200000), code)
+		large = append(large, iso.Job{Input: c07Recipe(r), Family: "many-small-items", Meta: r})
 	}
 	for _, n := range []int{65536, c.pick(200000, 1000000)} {
 		r := fmt.Sprintf("emptylist %d 0", n)
@@ -297,7 +318,7 @@ func runC07(c *ctx) {
 			c.Sample(map[string]interface{}{"family": j.Family, "len": len(j.Input), "input": hex.EncodeToString(clipB(j.Input))})
 		}
 	}
-	c.Required = []string{"family/declared-vs-present", "family/single-point-fault", "family/long-item", "family/closed-chain", "family/greedy-nested-lists", "family/random", "accepted", "rejected"}
+	c.Required = []string{"family/declared-vs-present", "family/single-point-fault", "family/long-item", "family/many-small-items", "family/closed-chain", "family/greedy-nested-lists", "family/random", "accepted", "rejected"}
 }
 
 func firstLines(s string, n int) string {
